@@ -16,9 +16,9 @@ func init() {
 		Title: "Calls pass/return exactly the values Lua 5.1 prescribes; tail calls are proper",
 		Explanation: "Decided (the one clause with a structural handle — 'return f(args) … without consuming call-stack space'): R02-tailframe — in the OP_TAILCALL handler a Lua callee reuses the running frame (no frame push on that arm, TailCall counter incremented, Fn/Pc/Base/LocalBase rewritten) and a host callee's pushed frame is always followed by callGFunction(L, true); callGFunction removes the caller frame exactly when tailcall is set, after the host function returned, and every path to its return pops exactly one frame (stack.Pop or switchToParentThread); RemoveCallerFrame pops exactly once and re-links the parent; compileReturnStmt rewrites the call of 'return f(args)' (single, non-parenthesised) into OP_TAILCALL; " +
 			"R02-frames — OP_CALL's frame literal and callR's agree field by field on how Base/LocalBase/ReturnBase/NArgs/NRet are derived, OP_RETURN pops exactly one frame on every non-coroutine path, and every frame push goes through the overflow guard (R12-full shared). " +
-			"R01-operands shared — every handler (OP_SELF for method-call sugar in particular) reads its RK operands before its first register write. R02-copies — every go-inlined copy of a frame/registry helper (initCallFrame, pushCallFrame, closeUpvalues, registry.Set/SetTop/CopyRange/checkSize …; ~130 blocks in state.go and vm.go) has the same statements as the definition it names, so the host-side call path (callR → pushCallFrame) and the VM's CALL/TAILCALL paths set a frame up alike. NOT decided: argument padding/truncation, vararg relocation, select/unpack, result counts — arithmetic on run-time counts.",
+			"R01-operands shared — every handler (OP_SELF for method-call sugar in particular) reads its RK operands before its first register write. R02-copies — every go-inlined copy of a frame/registry helper (initCallFrame, pushCallFrame, closeUpvalues, registry.Set/SetTop/CopyRange/checkSize …; ~130 blocks in state.go and vm.go) has the same statements as the definition it names, so the host-side call path (callR → pushCallFrame) and the VM's CALL/TAILCALL paths set a frame up alike. R02-select — select's range error is raised exactly for a normalised index below 1. NOT decided: argument padding/truncation, vararg relocation, select/unpack, result counts — arithmetic on run-time counts.",
 		Trusted: []string{},
-		Rules:   []func(*Ctx){ruleTailFrame, ruleFrames, ruleFull, ruleOperandOrder, ruleInlineCopies},
+		Rules:   []func(*Ctx){ruleTailFrame, ruleFrames, ruleFull, ruleOperandOrder, ruleInlineCopies, ruleSelectBounds},
 	})
 }
 
